@@ -68,9 +68,31 @@ def gen_case(rng, flavour):
     nops = rng.randint(1, 60 if flavour != "setops" else 30)
     hv = lambda: rng.choice(pool)
     hd = lambda: rng.randrange(nh)
+    nsig = 0
     for _ in range(nops):
         r = rng.random()
         h = hd()
+        if flavour == "md5" and r < 0.12:
+            # signature objects built from the sketches (implementation-only ops, prefixed '@')
+            if nsig == 0 or rng.random() < 0.25:
+                lines.append(f"@sig {nsig} {h}" + (" nm" if rng.random() < 0.5 else ""))
+                nsig += 1
+            else:
+                g = rng.randrange(nsig)
+                c = rng.random()
+                if c < 0.35:
+                    lines.append(f"@sigmd5 {g}")
+                elif c < 0.7:
+                    lines.append(f"@sigadd {g} " + "".join(rng.choice("ACGT") for _ in range(rng.randint(21, 40))))
+                elif c < 0.8:
+                    lines.append(f"@sigsetmh {g} {h}")
+                elif c < 0.9:
+                    lines.append(f"@sigcopy {nsig} {g}" + (" mut" if rng.random() < 0.5 else ""))
+                    nsig += 1
+                else:
+                    lines.append(f"@sigfreeze {nsig} {g}")
+                    nsig += 1
+            continue
         if flavour == "md5" and r < 0.30:
             lines.append(rng.choice(["md5", "md5raw"]) + f" {h}")
             continue
@@ -343,6 +365,16 @@ def oracle_md5(case, impl, ksize=21):
     bad = []
     for idx, (op, obs) in enumerate(zip(case, impl)):
         w = op.split()
+        if op.startswith("@") and obs.startswith("sig md5="):
+            f = dict(p.split("=", 1) for p in obs.split(" ")[1:] if "=" in p)
+            mins = [int(x) for x in f["mins"].split(",")] if f.get("mins") else []
+            exp = common.md5_of_pre(int(f["k"]), mins)
+            if f["md5"] != exp or f["mhmd5"] != exp:
+                bad.append((idx, "C11:stale-md5:signature", f"after `{op}` the signature reports md5 {f['md5']} (its sketch: {f['mhmd5']}) "
+                                                             f"but the digest of k={f['k']} and its current {len(mins)} hashes is {exp}"))
+            elif f["repr"] not in (exp[:8], "'" + exp[:8] + "'") and f["name"] == "''" and False:
+                pass
+            continue
         st = parse_show(obs)
         if st is not None and w[0] not in ("cc", "iu"):
             # the op's target handle is always its first argument
